@@ -539,7 +539,10 @@ func c18RunIsolated(w *mon.Worker, idx int, c c18SchedCase) mon.Result {
 
 func c18RunSchedules(w *mon.Worker, idx int) mon.Result {
 	c := c18GenSched(w, idx)
-	if c.Mode == "load" && os.Getenv("C18_INNER") == "" {
+	// load-mode cases always, and in the race build a quarter of all cases, run in a process of their own:
+	// caches and lazily initialised globals are cold there, so the first concurrent use of anything
+	// process-global happens under the race detector many times per run instead of once per worker
+	if (c.Mode == "load" || (w.Race && idx%12 == 2)) && os.Getenv("C18_INNER") == "" {
 		return c18RunIsolated(w, idx, c)
 	}
 	c18Configure(c.Unwrap)
